@@ -31,7 +31,7 @@ def mega_cases(chk, slice_no):
     return abs_for_text(sch), table, cases
 
 
-def build_schema(sch, outdir, units=False):
+def build_schema(sch, outdir, units=False, sanitize=False):
     if units:
         # units do not touch the wire format, but they travel through the reflection binary the run-time codec loads:
         # give a few fields a unit, one of them outside ASCII (a degree sign, as in the project's own README)
@@ -39,7 +39,7 @@ def build_schema(sch, outdir, units=False):
         for i, st in enumerate(sch["structs"][:6]):
             st["fields"][0]["unit"] = ["\u00b0C", "m/s", "\u00b5V"][i % 3]
     fcp, text = pycodec.parse_schema(sch)
-    st, exe = cppdriver.build(fcp, outdir)
+    st, exe = cppdriver.build(fcp, outdir, sanitize=sanitize)
     return st, exe, text
 
 
@@ -192,7 +192,8 @@ def run_codec_check(pid, tier, seed):
     for sl in slices:
         sch, table, cases = mega_cases(chk, sl)
         out = os.path.join(chk.workdir, "mega%d" % sl)
-        st, exe, text = build_schema(sch, out, units=(pid == "C13"))
+        # ASan + UBSan build (shared with C18 through the compile cache): a memory error ends the process -> "crashed"
+        st, exe, text = build_schema(sch, out, units=(pid == "C13"), sanitize=True)
         programs += 1
         chk.count(1)
         if st != "ok":
@@ -327,7 +328,8 @@ def run_c18(tier, seed):
     for sl in slices:
         sch, table, cases = mega_cases(chk, sl)
         out = os.path.join(chk.workdir, "mega%d" % sl)
-        st, exe, text = build_schema(sch, out)
+        # built with ASan + UBSan: a memory error in the wrapper ends the process and the command is answered "crashed"
+        st, exe, text = build_schema(sch, out, sanitize=True)
         if st != "ok":
             raise core.Machinery("C++ for the mega schema could not be built (%s: %s): C03's business" % (st, exe))
         can_cases = [c for c in cases if c["can"]]
